@@ -291,7 +291,9 @@ fn run_ops(c: &NCase, mut d: Drv, dev: Shared<NetDev>, st: &mut Stats, buf_len: 
         Drv::Raw(r) => r.mac(),
         Drv::Buf(b) => b.mac(),
     };
-    if mac != MAC {
+    // the `mac` configuration field is valid (and need only be used) when VIRTIO_NET_F_MAC was
+    // negotiated; without it the driver's choice of address is its own
+    if accepted & (1 << 5) != 0 && mac != MAC {
         return Err(format!("mac_address() = {:x?}, device configuration holds {:x?}", mac, MAC));
     }
     let check_dev = |dev: &Shared<NetDev>| -> Result<(), String> {
